@@ -455,6 +455,16 @@ fn clocks_in_range(p: &Pos1) -> bool {
 
 fn mon_c02(ctx: &mut Ctx, s: &Session, l1: &[Mv], byz: u32) -> Step {
     let fen = s.model.fen();
+    // successors are judged relative to the board in hand: if that board already differs from
+    // its position (a loader put it there; a move would have been caught by the sync check of
+    // its own ply), the difference is not the move operations' and the monitor stands down
+    if clocks_in_range(&s.model) {
+        if let Some(comp) = op(Op::Print, || sut::load_mismatch(&s.board, &s.model)) {
+            if !s.played {
+                return fail_any(ctx, &[(Prop::C05, "fen.parsed-differs")], format!("component={comp}"), format!("the loaded board for {fen} differs in {comp}"));
+            }
+        }
+    }
     if clocks_in_range(&s.model) {
         for &m in l1 {
             let which = ctx.tape.choose(3);
@@ -1406,6 +1416,11 @@ fn interleave_twin(ctx: &mut Ctx, s: &Session, l1: &[Mv]) -> Step {
         ctx.stats.bump("twin.record-rejected");
         return Ok(());
     };
+    // (a twin that was loaded wrongly is the loader's failure, C05's; the monitors below would
+    // blame the operations they watch)
+    if let Some(comp) = op(Op::Print, || sut::load_mismatch(&tb, &t)) {
+        return fail_any(ctx, &[(Prop::C05, "fen.parsed-differs")], format!("component={comp}"), format!("parsing {:?}: the board differs in {comp}", t.fen()));
+    }
     let twin = Session { model: t, board: tb, played: false, prev_legal: Vec::new(), last_move: [None, None], from_standard: None, sut_driven: false, shadow: None, last_kind: None, last_gave_check: false };
     ctx.stats.bump("fault.sched.interleaved-twin-session");
     let lt = check_legals(ctx, &twin)?;
